@@ -12,6 +12,7 @@ def escapeBranches : List (Cond × Act) := [
   ((.firstIs '_'), (.quote q1)),
   ((.hasChar ' '), (.quote q1)),
   ((.hasChar '\t'), (.quote q1)),
+  (.hasWs, (.quote q1)),
   ((.or (.firstIn ['#', ';']) (.startsWithAny ["data_", "loop_"])), (.quote q1))
 ]
 /-- The final `else` of `_escape`. -/
